@@ -2,6 +2,8 @@ package flows
 
 import (
 	"fmt"
+	"maps"
+	"slices"
 	"strings"
 
 	"github.com/nyaruka/gocommon/i18n"
@@ -106,15 +108,20 @@ func (t *TemplateTranslation) Preview(vars []*TemplatingVariable) *MsgContent {
 
 	for _, comp := range t.Components() {
 		content := comp.Content()
-		for key, index := range comp.Variables() {
-			variable := vars[index]
+		replacements := make([]string, 0, 2*len(comp.Variables()))
+
+		for _, key := range slices.Sorted(maps.Keys(comp.Variables())) {
+			variable := vars[comp.Variables()[key]]
 
 			if variable.Type == "text" {
-				content = strings.ReplaceAll(content, fmt.Sprintf("{{%s}}", key), variable.Value)
+				replacements = append(replacements, fmt.Sprintf("{{%s}}", key), variable.Value)
 			} else if (variable.Type == "image" || variable.Type == "video" || variable.Type == "document") && utils.IsValidAttachment(variable.Value) && len(variable.Value) <= MaxAttachmentLength {
 				attachments = append(attachments, utils.Attachment(variable.Value))
 			}
 		}
+
+		// substitute all placeholders in one pass so that a value which itself looks like a placeholder isn't substituted again
+		content = strings.NewReplacer(replacements...).Replace(content)
 
 		if content != "" {
 			if comp.Type() == "header/text" || comp.Type() == "body/text" || comp.Type() == "footer/text" {
